@@ -208,7 +208,7 @@ Proof. vm_compute. repeat split. Qed.
 
 (* capacity 1: the full cell refuses (place, move_to, move_relative), the layer stays right *)
 Example C11_empty_layer_example :
-  let ops := ex_ops ++ [Place 8 [0; 1]; Move 7 [1; 1]; MoveRel 7 [-1; 0] false; MoveRel 7 [-1; -1] false;
+  let ops := ex_ops ++ [Place 8 [0; 1]; Move 7 [1; 1]; MoveRel 7 [-1; 0] 1 false; MoveRel 7 [-1; -1] 1 false;
                         Place 8 [0; 0]; Move 8 [0; 1]; RemoveLayer 2; Remove 7] in
   clean ops = true /\
   map (fun c => layer_read (run_state (init true false 1 [2; 2]) ops) EMPTY c) (all_coords [2; 2])
@@ -225,7 +225,7 @@ Proof. eexists. vm_compute. repeat split. Qed.
 
 Example C18_proplayer_full_cell_example :
   let st := run_state (init true false 1 [2; 2]) [Create 1 1 0; Place 1 [0; 0]; Place 2 [0; 1]] in
-  map (fun o => step st o) [Place 3 [0; 0]; Move 2 [0; 0]; MoveRel 2 [0; -1] false; MoveRel 2 [0; 1] false]
+  map (fun o => step st o) [Place 3 [0; 0]; Move 2 [0; 0]; MoveRel 2 [0; -1] 1 false; MoveRel 2 [0; 1] 1 false]
     = [(st, RErr E_EXC); (st, RErr E_EXC); (st, RErr E_EXC); (st, RErr E_VALUE)].
 Proof. vm_compute. reflexivity. Qed.
 
